@@ -71,6 +71,11 @@ func sameReferent(d *Decl, it *Item, cm *Cmd) bool {
 func c08Run(c *Ctx) {
 	r := c.R
 	d := GenDecl(c.Sub("d"), c08Cfg())
+	if c.K%7 == 6 {
+		// scoping follows the declaration as it is now, not as it was when a command was first selected
+		histCase(c, d, []string{"late-group-on-ancestor", "late-group-in-group", "rename-namespace", "delimiter", "rename-option"}, []string{"parse"})
+		return
+	}
 	if len(d.Cmds) < 2 {
 		return
 	}
